@@ -5,6 +5,7 @@ package main
 // arrays inside one allocation so that out-of-field stores are observable.
 
 import (
+	"bytes"
 	"reflect"
 	"unsafe"
 
@@ -109,15 +110,15 @@ func execCodec(op string, a []sx) sx {
 	case "cwrite":
 		src := newCell(b.typ)
 		setVal(src.v, a[2])
-		w := avro.NewWriteBuf(nil)
+		w, pre := newWB()
 		b.codec.Write(w, src.ptr())
-		return T("ok", H(w.Bytes()))
+		return T("ok", H(wbOut(w, pre)))
 	case "crt":
 		src := newCell(b.typ)
 		setVal(src.v, a[2])
-		w := avro.NewWriteBuf(nil)
+		w, pre := newWB()
 		b.codec.Write(w, src.ptr())
-		bs := append([]byte(nil), w.Bytes()...)
+		bs := wbOut(w, pre)
 		dst := newCell(b.typ)
 		r := avro.NewReadBuf(bs)
 		err := b.codec.Read(r, dst.ptr())
@@ -133,4 +134,30 @@ func execCodec(op string, a []sx) sx {
 		return out
 	}
 	panic("harness: unknown codec op " + op)
+}
+
+// newWB returns a WriteBuf for one Write call; every other one already holds a few bytes (codecs append, they never
+// assume an empty buffer) and has a capacity close to what will be appended. wbOut returns what was appended - or the
+// whole buffer if the bytes that were there before were touched.
+var wbCount int
+
+func newWB() (*avro.WriteBuf, []byte) {
+	wbCount++
+	if wbCount%2 == 0 {
+		return avro.NewWriteBuf(nil), nil
+	}
+	n := 1 + wbCount%7
+	pre := make([]byte, n, n+wbCount%5)
+	for i := range pre {
+		pre[i] = byte(0xC0 + i + wbCount)
+	}
+	return avro.NewWriteBuf(pre), append([]byte(nil), pre...)
+}
+
+func wbOut(w *avro.WriteBuf, pre []byte) []byte {
+	b := w.Bytes()
+	if len(b) < len(pre) || !bytes.Equal(b[:len(pre)], pre) {
+		return append([]byte("prefix-damaged:"), b...)
+	}
+	return append([]byte(nil), b[len(pre):]...)
 }
